@@ -64,7 +64,7 @@ func (s *SQLIndexQuery) String(ctx *sql.Ctx, options ...int) (string, error) {
 		}
 		if s.FromNS > 0 {
 			from := time.Unix(s.FromNS/1e9, s.FromNS%1e9)
-			date := fmt.Sprintf("toDate('%s')", from.Format("2006-01-02"))
+			date := fmt.Sprintf("toDate('%s')", from.UTC().Format("2006-01-02"))
 			sqlTagRequests[i].AndWhere(
 				sql.Ge(sql.NewRawObject("date"), sql.NewRawObject(date)),
 			)
@@ -75,7 +75,7 @@ func (s *SQLIndexQuery) String(ctx *sql.Ctx, options ...int) (string, error) {
 		}
 		if s.ToNS > 0 {
 			to := time.Unix(s.ToNS/1e9, s.ToNS%1e9)
-			date := fmt.Sprintf("toDate('%s')", to.Format("2006-01-02"))
+			date := fmt.Sprintf("toDate('%s')", to.UTC().Format("2006-01-02"))
 			sqlTagRequests[i].AndWhere(
 				sql.Le(sql.NewRawObject("date"), sql.NewRawObject(date)),
 			)
